@@ -88,6 +88,15 @@ def variable_files(draw, keys_global: List[str], keys_stage: Dict[str, List[str]
                 files[i]["global"][k] = val
             else:
                 files[i]["stages"].setdefault(sc, {})[k] = val
+    if nfiles == 1 and keys_stage and draw(st.integers(0, 2)) == 0:
+        # one file that sets a key both globally and for a stage: which of the two a component of that stage sees is the
+        # layering rule of the code, but it has to be the same in every process (only the cross-process comparison
+        # applies to such a key: a single file cannot be "contested")
+        gk = [k for k in files[0]["global"] if k not in numeric]
+        if gk:
+            k = draw(st.sampled_from(sorted(gk)))
+            st_ = draw(st.sampled_from(sorted(keys_stage)))
+            files[0]["stages"].setdefault(st_, {})[k] = "%s-f0-stage%s" % (k, st_)
     order = list(draw(st.permutations(list(range(nfiles)))))
     if nfiles >= 2 and draw(st.integers(0, 3)) == 0:
         # the same path given twice: [x, .., x] must still behave as "layered in the order given" (x wins)
@@ -198,6 +207,9 @@ def flowir_spec(draw):
         envs["default"][n] = draw(_env_body())
         if where == "both":
             envs.setdefault(PLATFORM, {})[n] = draw(_env_body())
+    # (not generated: two environment definitions of one platform whose names differ only in letter case - a document
+    #  that defines the same case-insensitive name twice; which one counts is not stated and, on the pinned tree, depends
+    #  on the key order of the document - recorded as a lateral observation in DESIGN.md, seeded change C15/I)
     comp_env = [draw(st.sampled_from([None] + env_names * 2)) if env_names else None for _ in comps]
     # top level folders: inside the package directory (layout "dir"), or next to a single FlowIR file and mapped
     # through an explicit manifest (layout "file": target -> [spelling of the source, method])
